@@ -441,11 +441,17 @@ def variant_package(base, seed):
             name = info.filename
             if name == "settings.xml" and drop_settings:
                 continue
-            if name == "META-INF/manifest.xml" and drop_settings:
+            if name == "META-INF/manifest.xml":
+                MNS = "{urn:oasis:names:tc:opendocument:xmlns:manifest:1.0}"
                 root = etree.fromstring(data)
                 for e in list(root):
-                    if isinstance(e.tag, str) and e.get("{urn:oasis:names:tc:opendocument:xmlns:manifest:1.0}full-path") == "settings.xml":
+                    if not isinstance(e.tag, str):
+                        continue
+                    fp = e.get(MNS + "full-path") or ""
+                    if drop_settings and fp == "settings.xml":
                         root.remove(e)
+                    elif fp.startswith("Pictures/") and not fp.endswith("/") and rng.random() < 0.6:
+                        e.set(MNS + "media-type", "")  # what LibreOffice writes for a file type it does not know
                 data = etree.tostring(root.getroottree(), xml_declaration=True, encoding="UTF-8")
             elif name == "meta.xml":
                 root = etree.fromstring(data)
@@ -844,7 +850,11 @@ def apply_edit(doc, op, model: EditModel, tmpdir):
         from odfdo import Document
 
         before = set(memory_state(doc))
-        doc.merge_styles_from(Document(os.path.join(SAMPLES, other)))
+        if k % 4 == 1 and other.endswith(".odp"):
+            # the same source as another producer wrote it (pictures listed with an empty media type)
+            doc.merge_styles_from(Document(io.BytesIO(variant_package(other, k % 7))))
+        else:
+            doc.merge_styles_from(Document(os.path.join(SAMPLES, other)))
         after = set(memory_state(doc))
         model.last_merge = other
         model.merged_parts = getattr(model, "merged_parts", set()) | {p for p in after - before if not is_xml_name(p) and not p.endswith("/")}
